@@ -134,6 +134,23 @@ pub fn cmd_registry(args: &[String]) -> i32 {
         format!("{:?}", ch) == format!("TlsClientHelloContents {{ version: {:?}, random: {:?}, session_id: None, ciphers: {:?}, comp: {:?}, ext: None }}",
                                        TlsVersion(v as u16), tls_parser_hex(&R), vec![TlsCipherSuiteID(v as u16)], vec![TlsCompressionID(v as u8)])
     });
+    // the derived wire parsers (nom-derive `Parse`): big-endian, every value
+    {
+        use nom_derive::Parse;
+        macro_rules! p16 { ($tn:expr, $T:ident) => {{
+            conv(&mut out, $tn, "nom_parse", 65535, |v| { let b = [(v >> 8) as u8, v as u8, 0xAA];
+                matches!(<$T>::parse(&b), Ok((rem, x)) if rem == &b[2..] && x.0 as u32 == v) && matches!(<$T>::parse_be(&b), Ok((rem, x)) if rem == &b[2..] && x.0 as u32 == v) });
+        }}; }
+        macro_rules! p8 { ($tn:expr, $T:ident) => {{
+            conv(&mut out, $tn, "nom_parse", 255, |v| { let b = [v as u8, 0xAA]; matches!(<$T>::parse(&b), Ok((rem, x)) if rem == &b[1..] && x.0 as u32 == v) });
+        }}; }
+        p16!("TlsVersion", TlsVersion); p16!("TlsCipherSuiteID", TlsCipherSuiteID); p16!("TlsExtensionType", TlsExtensionType); p16!("NamedGroup", NamedGroup);
+        p16!("SignatureScheme", SignatureScheme);
+        p8!("TlsRecordType", TlsRecordType); p8!("TlsHandshakeType", TlsHandshakeType); p8!("TlsCompressionID", TlsCompressionID);
+        p8!("TlsHeartbeatMessageType", TlsHeartbeatMessageType); p8!("TlsAlertSeverity", TlsAlertSeverity); p8!("TlsAlertDescription", TlsAlertDescription);
+        p8!("HashAlgorithm", HashAlgorithm); p8!("SignAlgorithm", SignAlgorithm); p8!("SNIType", SNIType); p8!("CertificateStatusType", CertificateStatusType);
+        p8!("CtVersion", CtVersion); p8!("ECCurveType", ECCurveType); p8!("PskKeyExchangeMode", PskKeyExchangeMode);
+    }
     // formatter options: a precision never shortens a name or a fallback, a width at most pads a Display text (derived Debug impls hand the
     // width on to the inner integer, so Debug is only tried with precisions), hexadecimal output under any
     // width / flag still shows the value (the integer's own rendering of that spec, or the plain digits), and nothing panics
